@@ -85,6 +85,8 @@ def parseSigItem : List String → Option SigBlock
 def parseTail (s : String) : Option Tail :=
   if s = "E" then some .eof else if s = "R" then some (.err .decodeError) else none
 
+def parseBool01' (s : String) : Option Bool := if s = "1" then some true else if s = "0" then some false else none
+
 /-- options of the reference sender: `fn=<hex>;maj=<int|->;min=<int>;typ=<int|->;hx=<k>;rx=<k>;px=<k>;cs=<n.n.n|->` -/
 def parseOpts (s : String) : Option Spec.Opts := do
   let mut o : Spec.Opts := {}
@@ -106,6 +108,12 @@ def parseOpts (s : String) : Option Spec.Opts := do
     | ["rx", v] => o := { o with recvExtras := Spec.extraVals (← v.toNat?) }
     | ["px", v] => o := { o with packetExtras := Spec.extraVals (← v.toNat?) }
     | ["cs", v] => o := { o with chunkSizes := ← (if v = "-" then some [] else (v.splitOn ".").mapM String.toNat?) }
+    | ["pl", v] =>
+      let pl ← (v.splitOn ".").mapM (fun t => match t.splitOn "/" with
+        | [c, f] => match ofHex c, parseBool01' f with
+          | some c, some f => some (c, f) | _, _ => none
+        | _ => none)
+      o := { o with explicitPlan := some pl }
     | _ => none
   return o
 
